@@ -1437,7 +1437,7 @@ func translate(root *rootT, t target) (def string, info outFn) {
 				panic(r)
 			}
 			info.Error = u.why
-			def = fmt.Sprintf("(* %s:%s is UNTRANSLATABLE: %s *)\nDefinition %s_UNTRANSLATABLE : unit := tt.\n", t.Dir, t.Func, strings.ReplaceAll(u.why, "*)", "* )"), t.Name)
+			def = fmt.Sprintf("(* %s:%s is UNTRANSLATABLE: %s *)\nDefinition %s_UNTRANSLATABLE : unit := tt.\n", t.Dir, t.Func, strings.ReplaceAll(strings.ReplaceAll(u.why, "*)", "* )"), "(*", "( *"), t.Name)
 		}
 	}()
 	p := root.pkg(t.Dir)
